@@ -316,7 +316,7 @@ class HistGen:
                 ent = [[c, "1"] for c in f["fp"]["idx"]] if k == "bit" else [[c, v] for c, v in f["fp"]["cnt"]]
                 rng.shuffle(ent)
                 rows.append(ent)
-            emit({"op": "from_array", "id": fresh(), "kind": k, "level": level, "name": rng.choice([None, "arr"]), "bits": b,
+            emit({"op": "from_array", "id": fresh(), "kind": k, "level": level, "name": rng.choice([None, "arr"]), "bits": b, "infer_kind": rng.random() < 0.3,
                   "rows": rows, "names": [f["name"] for f in fps],
                   "props": [[kk, [dict(f["props"])[kk] for f in fps]] for kk in keys]})
         n = rng.randint(2, self.maxlen)
@@ -486,8 +486,9 @@ class ImplRun:
             arr = csr_matrix((np.array(data, dtype=DTYPE[op["kind"]]), np.array(indices, dtype=np.int64),
                               np.array(indptr, dtype=np.int64)), shape=(len(op["rows"]), op["bits"]))
             props = {k: col_array(k, vals) for k, vals in op["props"]}
-            L[op["id"]] = FingerprintDatabase.from_array(arr, list(op["names"]), fp_type=CLS[op["kind"]], level=op["level"],
-                                                         name=op["name"], props=props)
+            # `fp_type` is optional: left out, the kind is the one of the matrix dtype (bool / integer / floating)
+            kw = {} if op.get("infer_kind") else {"fp_type": CLS[op["kind"]]}
+            L[op["id"]] = FingerprintDatabase.from_array(arr, list(op["names"]), level=op["level"], name=op["name"], props=props, **kw)
             return {"ok": None}
         if o == "add":
             fps = [make_fpin(s) for s in op["fps"]]
